@@ -96,7 +96,8 @@ def main (argv=None):
   if replay_mode:
     with open(args.replay) as f:
       rp = json.load(f)
-    specs = [dict(replay=rp["witness"], key=rp.get("key"))]
+    specs = [dict(replay=rp["witness"], key=rp.get("key"),
+                  verbose_logs=bool((rp.get("spec") or {}).get("verbose_logs")))]
   else:
     specs = mod.plan(args.tier, seed)
     for i, s in enumerate(specs):
@@ -104,6 +105,9 @@ def main (argv=None):
       s.setdefault("seed", seed)
       s.setdefault("shard", i)
       s.setdefault("nshards", len(specs))
+      # every fourth shard runs with the log level at DEBUG (see env.boot)
+      s.setdefault("verbose_logs", os.environ.get("PVM_VERBOSE_LOGS", "") == "all"
+                   or (i % 4 == 3 and os.environ.get("PVM_VERBOSE_LOGS", "") != "none"))
 
   default_to = getattr(mod, "TIMEOUT", {}).get(args.tier, 900
                                                 if args.tier == "quick"
